@@ -472,6 +472,13 @@ def main(tier, seed):
     except Exception: rep.error('C17 frozendict_contract: ' + traceback.format_exc()[-1500:])
     try: collisions(rep)
     except Exception: rep.error('C17 collisions: ' + traceback.format_exc()[-1500:])
+    try:
+        # the callee contract BeartypeConf.__new__ is proved against (sanify_conf_kwargs_is_pep484_tower: replaces hint_overrides or raises on ANY conflict) is
+        # established on the real function by C18's function-mode proof; its obligations are part of C17's "uniform rejection" too
+        from props import c18
+        n0 = len(rep.obls); c18.sanify_tower(rep)
+        rep.obls[n0:] = [dict(o, name=o['name'].replace('C18.sanify_tower', 'C17.sanify_tower')) for o in rep.obls[n0:]]
+    except Exception: rep.error('C17 sanify_tower: ' + traceback.format_exc()[-1500:])
     files = ['beartype/_conf/confmain.py', 'beartype/_conf/conftest.py', 'beartype/_conf/_confoverrides.py', 'beartype/_conf/_confget.py']
     rep.functions = ['beartype/_conf/confmain.py:BeartypeConf.__new__', 'beartype/_conf/confmain.py:BeartypeConf.__eq__', 'beartype/_conf/confmain.py:BeartypeConf.__hash__',
                      'beartype/_conf/conftest.py:default_conf_kwargs (inlined)', 'beartype/_conf/conftest.py:die_if_conf_kwargs_invalid (inlined)', 'beartype/_conf/conftest.py:sanify_conf_kwargs (inlined)',
